@@ -115,9 +115,11 @@ def plain_pool(E, shape, L=1, tag="", sparse=False):
 
 def concrete_pool(E, lrus, tag="c"):
     """pool of fully concrete LRUs given as lists of str stems (UTF-8 encoded)"""
+    E.concrete_mode()
     pool = []
     for i, stems in enumerate(lrus):
-        pool.append(PL([E.const(x.encode("utf-8")) for x in stems], "%s%d" % (tag, i)))
+        kinds = [x[0] if len(x) > 1 and x[1] == ":" and x[0] in "sthp" else "?" for x in stems]
+        pool.append(PL([E.const(x.encode("utf-8")) for x in stems], "%s%d" % (tag, i), kinds))
     return pool
 
 
